@@ -30,7 +30,7 @@ Definition K (te ty : Z) (off req : eqos) (pp sp : list name) (w r : obs) : C15_
   mkC15 (mkconfig (b_of te) (b_of ty) off req pp sp) w r.
 
 (* ---- compact form of the exhaustive kind enumeration (thorough tier): one number per case,
-   z = n + 2^20 * (wcode + 2^48 * rcode).  n in [0, 589824) is the mixed-radix index of the
+   z = n + 2^20 * (wcode + 2^12 * rcode).  n in [0, 589824) is the mixed-radix index of the
    kind combination, digits (most significant first)
      d1:4 d2:4 s1 c1 o1 s2 c2 o2 :2 k1:3 k2:3 r1 r2 x1 x2 w1 w2 :2
    (durability, scope, coherent, ordered, liveliness kind, reliability, destination order,
@@ -63,25 +63,28 @@ Definition enum_cfg (n : Z) : config :=
     (Q d2 s2 c2 o2 b a k2 d r2 x2 w2 [])
     [] [].
 
-(* one observation as a number: tag + 8 * (last_index + 16 * seq); tag 0 = matched,
-   1 = nothing, 2 = inconsistent topic, 3 = other, 4 = incompatible; a policy id is written
-   as its 1-based position in rxo_policy_ids, `seq` lists the ids in status order, first id
-   in the lowest hexadecimal digit, terminated by 0 *)
-Definition id_of_index (k : Z) : Z := nth (Z.to_nat (k - 1)) rxo_policy_ids 0.
-Fixpoint ids_of_seq (fuel : nat) (z : Z) : list Z :=
-  match fuel with
-  | O => []
-  | S f => if z mod 16 =? 0 then [] else id_of_index (z mod 16) :: ids_of_seq f (z / 16)
+(* one observation as a 12-bit number: tag + 8 * mask; tag 0 = matched, 1 = nothing,
+   2 = inconsistent topic, 3 = other, 4 = incompatible.  For tag 4 the status lists, in the
+   push order of that side's function, the policies whose bit is set in `mask` (bit k = k-th
+   element of the order) and last_policy_id is the first of them.  An observation that is
+   not of this shape is not written in this form (props/C15.py falls back to `K`). *)
+Definition writer_side_order : list Z := [2; 3; 4; 5; 8; 11; 12; 6; 23].
+Definition reader_side_order : list Z := [3; 2; 4; 5; 8; 11; 12; 6; 23].
+Fixpoint pick (ids : list Z) (mask : Z) : list Z :=
+  match ids with
+  | [] => []
+  | id :: t => (if Z.odd mask then [id] else []) ++ pick t (mask / 2)
   end.
-Definition obs_of_code (z : Z) : obs :=
+Definition obs_of_code (order : list Z) (z : Z) : obs :=
   let tag := z mod 8 in
   if tag =? 0 then M else if tag =? 1 then N0 else if tag =? 2 then T
-  else if tag =? 4 then In_ (id_of_index ((z / 8) mod 16)) (ids_of_seq 12 (z / 128))
+  else if tag =? 4 then let ids := pick order (z / 8) in In_ (hd 0 ids) ids
   else ObsOther.
+(* z = n + 2^20 * (wcode + 2^12 * rcode) *)
 Definition EZ (z : Z) : C15_case :=
   mkC15 (enum_cfg (z mod 1048576))
-        (obs_of_code ((z / 1048576) mod 281474976710656))
-        (obs_of_code (z / 295147905179352825856)).
+        (obs_of_code writer_side_order ((z / 1048576) mod 4096))
+        (obs_of_code reader_side_order (z / 4294967296)).
 
 Fixpoint zlist_eqb (a b : list Z) : bool :=
   match a, b with
